@@ -11,7 +11,7 @@ from __future__ import annotations
 
 import copy
 
-from .. import planlib, world
+from .. import planlib, refmodels, world
 from ..catalogue import ENCODINGS, ENCODINGS_EXTRA, encode, sample_members, sample_spec, spec_label
 from ..core import Discard, LibError, Violation, run_property
 from ..deepsnap import deep_snapshot, first_difference
@@ -63,6 +63,8 @@ def plan(seed, subbatch):
                                      "arg": ob.randint(0, 12), "pos": ob.random()}))
     if ob.random() < 0.25:
         extras.append((ob.random(), {"op": "purge", "target": ob.randint(0, 2)}))
+    if kind == "hexital" and ob.random() < 0.3:
+        extras.append((ob.random(), {"op": "remove", "target": ob.randint(0, 2)}))
     start = world.pick_start(cfg, base_s, tf_s)
     pre, ops, fired, rows = planlib.stream_and_schedule(seed, subbatch, n, base_s, start, faults, burst, 0.0, extras,
                                                         encodings=encs, preload=cfg.choice((0, 0, 1, 3)))
@@ -131,6 +133,7 @@ def execute(trace, ctx=None):
         free = Machine(run, cfg)          # no probes, same encodings
         plain = Machine(run, cfg)         # no probes, Candle objects
         probes_done = 0
+        removed_any = False
         n_appends = 0
         encs_used = set()
         for i, op in enumerate(trace["ops"]):
@@ -184,6 +187,16 @@ def execute(trace, ctx=None):
                 except LibError as e:
                     raise Violation("usable-after-probe", label, e.site, {"error": repr(e.exc), "op": "purge"})
                 continue
+            if kind == "remove":
+                if subj.kind != "hexital" or len(subj.live_slots()) < 2:
+                    continue
+                try:
+                    for mm in (subj, free, plain):
+                        mm.remove(mm.slot(op.get("target", 0)))
+                except LibError as e:
+                    raise Violation("usable-after-probe", label, e.site, {"error": repr(e.exc), "op": "remove"})
+                removed_any = True
+                continue
             if kind == "probe":
                 before = deep_snapshot(subj.subject)
                 raised = _probe(subj, op)
@@ -214,6 +227,19 @@ def execute(trace, ctx=None):
                     raise Violation("encoding-vs-candle-twin", "encoding", f"{what}:{'default' if mgr in ('default', 'self') else 'timeframe'}",
                                     {"manager": mgr, "n_encoded": len(b.get(mgr, [])), "n_candle": len(c.get(mgr, [])),
                                      "encodings": sorted(encs_used)})
+                # "delivers the same candle to every timeframe of a Hexital": every candle manager the
+                # Hexital lists must hold exactly the reference resampling of everything delivered
+                if subj.kind == "hexital":
+                    for name, mgr in subj.subject._candles.items():
+                        got = [c[:6] for c in a[name]]
+                        if mgr.timeframe:
+                            want = [tuple(r) for r in refmodels.resample(subj.delivered, tf_seconds(mgr.timeframe))]
+                        else:
+                            want = [tuple(r) for r in subj.delivered]
+                        if got != want:
+                            raise Violation("manager-vs-reference", "hexital",
+                                            ("timeframe" if mgr.timeframe else "default") + (":after-remove" if removed_any else ""),
+                                            {"manager": name, "n_got": len(got), "n_want": len(want)})
                 run.observe("final", a)
         if subj.subject is None:
             raise Discard("no-new-op")
